@@ -80,7 +80,9 @@ impl Check for C09 {
             }
             other => return other,
         }
-        if s.real && ops::expected_admissible(&s.inner.case) {
+        // (the real pipeline goes through the standard library's relation wrapper; operations
+        //  that run in circuits of their own are covered by the structure monitor only)
+        if s.real && !s.inner.case.op.starts_with("ff.c25519") && ops::expected_admissible(&s.inner.case) {
             return real_pipeline(&s.inner.case, st);
         }
         Verdict::Pass
